@@ -197,7 +197,7 @@ fn check_rows(
         by_sigma.entry(sigma.clone()).or_default().insert(label.clone());
         // whose sigma is it? (ground truth by value)
         let true_producer = honest.iter().find(|(_, s)| sig_hex(s) == *sigma).map(|(p, _)| p.clone());
-        let ok = matches!(&true_producer, Some(p) if p == label);
+        let ok = false; // every row is judged cryptographically, also when label and producer agree
         if !ok {
             // double check with the cryptographic ground truth
             let stored = honest.values().find(|s| sig_hex(s) == *sigma).cloned();
@@ -209,7 +209,15 @@ fn check_rows(
                     verifies_under(run, epoch, label, &s, message)
                 })
                 .unwrap_or(false);
-            if !crypt_ok && reported.insert(format!("row|{label}|{sigma}")) {
+            if !crypt_ok && matches!(&true_producer, Some(p) if p == label) {
+                if reported.insert(format!("rowidx|{label}|{sigma}")) {
+                    mon.violation(
+                        &format!("C16 recorded signature of a party no longer verifies under its own registered key ({variant})"),
+                        &format!("{place}: row labelled {label} holds its own sigma but with the index list {idx:?}, which does not verify (an index it did not win was recorded); last submission: {variant} via {channel:?} -> {reply}"),
+                        replay(json!({"label": label, "indexes": idx})),
+                    );
+                }
+            } else if !crypt_ok && reported.insert(format!("row|{label}|{sigma}")) {
                 mon.violation(
                     &format!("C16 signature recorded under a party whose registered key did not produce it ({variant})"),
                     &format!("{place}: row labelled {label} holds the sigma produced by {true_producer:?}; last submission: {variant} via {channel:?} -> {reply}"),
@@ -305,6 +313,17 @@ pub async fn round(run: &mut Run, disc: SignedEntityTypeDiscriminants, early: bo
         adv.push(Submission { variant: "copy-of-other-sigma-under-own-name-altered-indexes", label: adversary.clone(), producer: victim.clone(), sig: c, channel: *rnd::pick(rng, &channels) });
         let c = with_indexes(&vic_sig, &vic_sig.won_indexes[..1]);
         adv.push(Submission { variant: "replay-of-other-sigma-under-its-owner-name-with-restricted-indexes", label: victim.clone(), producer: victim.clone(), sig: c, channel: *rnd::pick(rng, &channels) });
+    }
+    {
+        // a copy of the victim's signature under the victim's name whose ANNOUNCED index list (the
+        // separate field of the submission) contains an index the victim did not win; the list
+        // embedded in the signature is untouched
+        let m = pp.m;
+        if let Some(unwon) = (0..m).find(|i| !vic_sig.won_indexes.contains(i)) {
+            let mut c = vic_sig.clone();
+            c.won_indexes.push(unwon);
+            adv.push(Submission { variant: "replay-under-owner-name-with-announced-unwon-index", label: victim.clone(), producer: victim.clone(), sig: c, channel: *rnd::pick(rng, &channels) });
+        }
     }
     // own sigma under another name is impossible on the message queue (the party id is derived from the sender's certificate)
     for a in adv.iter_mut() {
